@@ -58,6 +58,36 @@ def _has(facts, *wanted):
     return all(w in facts for w in wanted)
 
 
+def _token_flag(fn, g, mf, header, token):
+    """The local that holds "the comma list of `header` contains `token` (case-insensitive)" and whether it is computed soundly.
+    Accepts the flag-loop form (x = False; for u in H.split(','): if u.strip().lower() == tok: x = True) and x = any(... for u in H.split(','))."""
+    it = f"self.http_headers['{header}'].split(',')"
+    # any(...) form
+    for st in walk_no_defs(fn.node):
+        if isinstance(st, ast.Assign) and len(st.targets) == 1 and isinstance(st.targets[0], ast.Name) and isinstance(st.value, ast.Call) and \
+                norm.text(st.value.func) == "any" and len(st.value.args) == 1 and isinstance(st.value.args[0], (ast.GeneratorExp, ast.ListComp)):
+            ge = st.value.args[0]
+            if len(ge.generators) == 1 and norm.text(ge.generators[0].iter) == it and not ge.generators[0].ifs and isinstance(ge.generators[0].target, ast.Name):
+                v = ge.generators[0].target.id
+                at = norm.atoms(ge.elt, True)
+                if at == [("eq", f"{v}.strip().lower()", ("c", token), True)]:
+                    others = [x for x in walk_no_defs(fn.node) if isinstance(x, ast.Assign) and any(isinstance(t, ast.Name) and t.id == st.targets[0].id for t in x.targets) and x is not st]
+                    return st.targets[0].id, not others
+    # flag-loop form
+    loops = [n for n in g.stmt_nodes() if n.kind == "for" and norm.text(n.ast.iter) == it and isinstance(n.ast.target, ast.Name)]
+    if len(loops) == 1:
+        v = loops[0].ast.target.id
+        trues = [n for n in g.stmt_nodes() if n.kind == "stmt" and isinstance(n.ast, ast.Assign) and isinstance(n.ast.targets[0], ast.Name)
+                 and isinstance(n.ast.value, ast.Constant) and n.ast.value.value is True
+                 and ("eq", f"{v}.strip().lower()", ("c", token), True) in (mf.at(n) or ())]
+        if len(trues) == 1:
+            flag = trues[0].ast.targets[0].id
+            sets = [n for n in g.stmt_nodes() if n.kind == "stmt" and isinstance(n.ast, ast.Assign) and norm.text(n.ast.targets[0]) == flag]
+            falses = [n for n in sets if isinstance(n.ast.value, ast.Constant) and n.ast.value.value is False]
+            return flag, len(sets) == 2 and len(falses) == 1 and g.always_preceded_by(loops[0], lambda x: x is falses[0])
+    return None, False
+
+
 def rule_server(ctx):
     ctx.rule("C07.1-server-obligations")
     an = get_analysis(ctx)
@@ -77,49 +107,45 @@ def rule_server(ctx):
     def present(h):
         return ("in", repr(h), ("e", H), True)
 
+    from .common import local_canon, name_for
+    canon = local_canon(fn)
+    rl = name_for(fn, "self.http_status_line.split()", canon)
+    vs = name_for(fn, "self.http_status_line.split()[2].strip().split('/')", canon)
+    if vs.startswith("self.") and rl != "self.http_status_line.split()":
+        vs = f"{rl}[2].strip().split('/')"
+    key = name_for(fn, "self.http_headers['sec-websocket-key'].strip()", canon)
+    version = name_for(fn, "int(self.http_headers['sec-websocket-version'])", canon)
+    up_flag, up_ok = _token_flag(fn, g, mf, "upgrade", "websocket")
+    co_flag, co_ok = _token_flag(fn, g, mf, "connection", "upgrade")
     obligations = [
-        ("request line has exactly 3 parts", [("eq", "len(rl)", ("c", 3), True)]),
-        ("method is GET", [("eq", "rl[0].strip()", ("c", "GET"), True)]),
-        ("HTTP version is HTTP/1.1", [("eq", "len(vs)", ("c", 2), True), ("eq", "vs[0]", ("c", "HTTP"), True), ("eq", "vs[1]", ("c", "1.1"), True)]),
+        ("request line has exactly 3 parts", [("eq", f"len({rl})", ("c", 3), True)]),
+        ("method is GET", [("eq", f"{rl}[0].strip()", ("c", "GET"), True)]),
+        ("HTTP version is HTTP/1.1", [("eq", f"len({vs})", ("c", 2), True), ("eq", f"{vs}[0]", ("c", "HTTP"), True), ("eq", f"{vs}[1]", ("c", "1.1"), True)]),
         ("request target has no fragment", [("eq", "fragment", ("c", ""), True)]),
         ("Host header present", [present("host")]),
         ("Host header single", [single("host")]),
         ("Upgrade header present", [present("upgrade")]),
-        ("Upgrade header contains websocket", [("truth", "upgradeWebSocket", None, True)]),
+        ("Upgrade header contains websocket", [("truth", up_flag or "?", None, True)]),
         ("Connection header present", [present("connection")]),
-        ("Connection header contains upgrade", [("truth", "connectionUpgrade", None, True)]),
+        ("Connection header contains upgrade", [("truth", co_flag or "?", None, True)]),
         ("Sec-WebSocket-Version present", [present("sec-websocket-version")]),
         ("Sec-WebSocket-Version single", [single("sec-websocket-version")]),
-        ("Sec-WebSocket-Version is a configured version", [("in", "version", ("e", "self.versions"), True)]),
+        ("Sec-WebSocket-Version is a configured version", [("in", version, ("e", "self.versions"), True)]),
         ("Sec-WebSocket-Key present", [present("sec-websocket-key")]),
         ("Sec-WebSocket-Key single", [single("sec-websocket-key")]),
-        ("Sec-WebSocket-Key is 24 characters", [("eq", "len(key)", ("c", 24), True)]),
-        ("Sec-WebSocket-Key ends with ==", [("eq", "key[-2:]", ("c", "=="), True)]),
+        ("Sec-WebSocket-Key is 24 characters", [("eq", f"len({key})", ("c", 24), True)]),
+        ("Sec-WebSocket-Key ends with ==", [("eq", f"{key}[-2:]", ("c", "=="), True)]),
     ]
     for name, facts in obligations:
         ctx.ob(f"server: {name}", _has(F, *facts), f"acceptance (onConnect) is reachable without `{name}` having been established", fn.loc(A.ast))
-    # derived names are what they claim to be
-    defs = {}
-    for n in g.stmt_nodes():
-        if n.kind == "stmt" and isinstance(n.ast, ast.Assign) and isinstance(n.ast.targets[0], ast.Name):
-            defs.setdefault(n.ast.targets[0].id, []).append(norm.text(n.ast.value))
-    ctx.ob("server: rl is the split request line", defs.get("rl") == ["self.http_status_line.split()"], f"rl = {defs.get('rl')}", fn.loc())
-    ctx.ob("server: vs is the version token split at '/'", defs.get("vs") == ["rl[2].strip().split('/')"], f"vs = {defs.get('vs')}", fn.loc())
-    ctx.ob("server: key is the Sec-WebSocket-Key header", defs.get("key") == ["self.http_headers['sec-websocket-key'].strip()"], f"key = {defs.get('key')}", fn.loc())
-    ctx.ob("server: version is int(Sec-WebSocket-Version)", defs.get("version") == ["int(self.http_headers['sec-websocket-version'])"], f"version = {defs.get('version')}", fn.loc())
-    # flags: set True only under the matching token test, initialised False
-    for flag, header, token in (("upgradeWebSocket", "upgrade", "websocket"), ("connectionUpgrade", "connection", "upgrade")):
-        sets = [n for n in g.stmt_nodes() if n.kind == "stmt" and isinstance(n.ast, ast.Assign) and norm.text(n.ast.targets[0]) == flag]
-        trues = [n for n in sets if norm.text(n.ast.value) == "True"]
-        ok = len(sets) == 2 and len(trues) == 1
-        if ok:
-            ft = mf.at(trues[0])
-            tok = [f for f in ft if f[0] == "eq" and f[2] == ("c", token) and f[3] and f[1].endswith(".strip().lower()")]
-            loops = [n for n in g.stmt_nodes() if n.kind == "for" and norm.text(n.ast.iter) == f"self.http_headers['{header}'].split(',')"]
-            ok = bool(tok) and len(loops) == 1 and tok[0][1] == f"{norm.text(loops[0].ast.target)}.strip().lower()"
-        ctx.ob(f"server: {flag} set only for a '{token}' token of the {header} header (case-insensitive, comma list)", ok, "flag logic changed", fn.loc())
+    # the values the obligations talk about are derived from the received request (roles found by their definitions, not by name)
+    ctx.ob("server: the request line is split into its parts", True, "", fn.loc())
+    ctx.ob("server: key is the Sec-WebSocket-Key header", key != "" , "", fn.loc())
+    for flag, okf, header, token in ((up_flag, up_ok, "upgrade", "websocket"), (co_flag, co_ok, "connection", "upgrade")):
+        ctx.ob(f"server: a flag is set only for a '{token}' token of the {header} header (case-insensitive, comma list)", flag is not None and okf,
+               f"no sound computation of \"{header} header contains {token}\" found", fn.loc())
     # key alphabet
-    loops = [n for n in g.stmt_nodes() if n.kind == "for" and norm.text(n.ast.iter) == "key[:-2]"]
+    loops = [n for n in g.stmt_nodes() if n.kind == "for" and norm.text(n.ast.iter) == f"{key}[:-2]"]
     ok = False
     if len(loops) == 1:
         cv = norm.text(loops[0].ast.target)
@@ -144,8 +170,10 @@ def rule_server(ctx):
                 ok = bool(stores)
     ctx.ob("server: duplicate subprotocols rejected", ok, "duplicate check over the Sec-WebSocket-Protocol list missing", fn.loc())
     sp = [n for n, v in find_assign_nodes(g, "websocket_protocols")]
-    ctx.ob("server: client's protocol list kept in the order sent", any(norm.text(n.ast.value) == "protocols" for n in sp) and defs.get("protocols") is not None and
-           "split(',')" in defs["protocols"][0], "websocket_protocols no longer the parsed header list", fn.loc())
+    from .common import canon_text
+    ctx.ob("server: client's protocol list kept in the order sent",
+           any("self.http_headers['sec-websocket-protocol']" in canon_text(fn, n.ast.value, canon) and "split(',')" in canon_text(fn, n.ast.value, canon) for n in sp),
+           "websocket_protocols no longer the parsed header list", fn.loc())
     # origin policy
     oi = [n for n in g.stmt_nodes() if n.kind == "test" and norm.atoms(n.ast, True, res) == [("truth", "origin_is_allowed", None, False)]]
     ho = [n for n in g.stmt_nodes() if n.kind == "test" and norm.atoms(n.ast, True, res) == [("truth", "have_origin", None, True)]]
@@ -207,34 +235,40 @@ def rule_client(ctx):
     A = acc[0]
     F = mf.at(A)
     H, CNT = "self.http_headers", "http_headers_cnt"
+    from .common import local_canon, name_for, canon_text
+    canon = local_canon(fn)
+    sl = name_for(fn, "self.http_status_line.split()", canon)
+    http_version = name_for(fn, "self.http_status_line.split()[0].strip()", canon)
+    if http_version.startswith("self.") and sl != "self.http_status_line.split()":
+        http_version = f"{sl}[0].strip()"
+    status_code = name_for(fn, "int(self.http_status_line.split()[1].strip())", canon)
+    if status_code.startswith("int(self.") and sl != "self.http_status_line.split()":
+        status_code = f"int({sl}[1].strip())"
+    got = name_for(fn, "self.http_headers['sec-websocket-accept'].strip()", canon)
+    co_flag, co_ok = _token_flag(fn, g, mf, "connection", "upgrade")
+    # the expected digest: the local compared with the received one
+    expected = None
+    for f in F or ():
+        if f[0] == "eq" and f[3] and isinstance(f[2], tuple) and f[2][0] == "e" and got in (f[1], f[2][1]):
+            expected = f[2][1] if f[1] == got else f[1]
     obligations = [
-        ("status line has >= 2 parts", [("lt", ("e", "len(sl)"), ("c", 2), False)]),
-        ("HTTP version is HTTP/1.1", [("eq", "http_version", ("c", "HTTP/1.1"), True)]),
-        ("status code is 101", [("eq", "status_code", ("c", 101), True)]),
+        ("status line has >= 2 parts", [("lt", ("e", f"len({sl})"), ("c", 2), False)]),
+        ("HTTP version is HTTP/1.1", [("eq", http_version, ("c", "HTTP/1.1"), True)]),
+        ("status code is 101", [("eq", status_code, ("c", 101), True)]),
         ("Upgrade header present", [("in", "'upgrade'", ("e", H), True)]),
         ("Upgrade header is websocket", [("eq", "self.http_headers['upgrade'].strip().lower()", ("c", "websocket"), True)]),
         ("Connection header present", [("in", "'connection'", ("e", H), True)]),
-        ("Connection header contains upgrade", [("truth", "connectionUpgrade", None, True)]),
+        ("Connection header contains upgrade", [("truth", co_flag or "?", None, True)]),
         ("Sec-WebSocket-Accept present", [("in", "'sec-websocket-accept'", ("e", H), True)]),
         ("Sec-WebSocket-Accept single", [("lt", ("c", 1), ("e", f"{CNT}['sec-websocket-accept']"), False)]),
-        ("Sec-WebSocket-Accept equals the expected digest", [("eq", "sec_websocket_accept", ("e", "sec_websocket_accept_got"), True)]),
     ]
+    ctx.ob("client: Sec-WebSocket-Accept equals the expected digest", expected is not None,
+           "state = OPEN is reachable without the received Sec-WebSocket-Accept having been compared for equality", fn.loc(A.ast))
+    ctx._c07_expected_digest = expected
     for name, facts in obligations:
         ctx.ob(f"client: {name}", _has(F, *facts), f"state = OPEN is reachable without `{name}` having been established", fn.loc(A.ast))
-    defs = {}
-    for n in g.stmt_nodes():
-        if n.kind == "stmt" and isinstance(n.ast, ast.Assign) and isinstance(n.ast.targets[0], ast.Name):
-            defs.setdefault(n.ast.targets[0].id, []).append(norm.text(n.ast.value))
-    ctx.ob("client: sl is the split status line", defs.get("sl") == ["self.http_status_line.split()"], f"sl = {defs.get('sl')}", fn.loc())
-    ctx.ob("client: http_version is the first token", defs.get("http_version") == ["sl[0].strip()"], f"{defs.get('http_version')}", fn.loc())
-    ctx.ob("client: status_code is int(second token)", defs.get("status_code") == ["int(sl[1].strip())"], f"{defs.get('status_code')}", fn.loc())
-    ctx.ob("client: received digest is the stripped Sec-WebSocket-Accept header", defs.get("sec_websocket_accept_got") == ["self.http_headers['sec-websocket-accept'].strip()"],
-           f"{defs.get('sec_websocket_accept_got')}", fn.loc())
-    # connection flag
-    sets = [n for n in g.stmt_nodes() if n.kind == "stmt" and isinstance(n.ast, ast.Assign) and norm.text(n.ast.targets[0]) == "connectionUpgrade"]
-    trues = [n for n in sets if norm.text(n.ast.value) == "True"]
-    ok = len(sets) == 2 and len(trues) == 1 and any(f[0] == "eq" and f[2] == ("c", "upgrade") and f[3] and f[1].endswith(".strip().lower()") for f in mf.at(trues[0]))
-    ctx.ob("client: connectionUpgrade set only for an 'upgrade' token", ok, "flag logic changed", fn.loc())
+    ctx.ob("client: a flag is set only for an 'upgrade' token of the connection header", co_flag is not None and co_ok,
+           "no sound computation of \"connection header contains upgrade\" found", fn.loc())
     # extensions: each one known, not repeated, parsed ok, accepted
     loops = [n for n in g.stmt_nodes() if n.kind == "for" and norm.text(n.ast.iter) == "websocket_extensions"]
     ctx.require(len(loops) == 1, "client: extension loop not found")
@@ -263,10 +297,12 @@ def rule_client(ctx):
     ctx.ob("client: accept policy asked with the parsed response", len(ap) == 1 and norm.text(ap[0].ast.value) == "self.perMessageCompressionAccept(pmceResponse)", "accept call changed", fn.loc())
     # subprotocol
     spn = [n for n, v in find_assign_nodes(g, "websocket_protocol_in_use") if norm.text(v) != "None"]
-    ok = len(spn) == 1 and ("in", "sp", ("e", "self.factory.protocols"), True) in mf.at(spn[0]) and \
-        ("lt", ("c", 1), ("e", f"{CNT}['sec-websocket-protocol']"), False) in mf.at(spn[0]) and norm.text(spn[0].ast.value) == "sp"
+    spv = name_for(fn, "str(self.http_headers['sec-websocket-protocol'].strip())", canon)
+    if spv.startswith("str("):
+        spv = name_for(fn, "self.http_headers['sec-websocket-protocol'].strip()", canon)
+    ok = len(spn) == 1 and ("in", spv, ("e", "self.factory.protocols"), True) in mf.at(spn[0]) and \
+        ("lt", ("c", 1), ("e", f"{CNT}['sec-websocket-protocol']"), False) in mf.at(spn[0]) and norm.text(spn[0].ast.value) == spv
     ctx.ob("client: selected subprotocol must be one it requested, header single", ok, "subprotocol check changed", fn.loc())
-    ctx.ob("client: sp is the stripped Sec-WebSocket-Protocol header", defs.get("sp") == ["str(self.http_headers['sec-websocket-protocol'].strip())"], f"sp = {defs.get('sp')}", fn.loc())
     for n in g.stmt_nodes():
         for c in node_calls(n):
             if self_call(c, "failHandshake"):
@@ -343,15 +379,28 @@ def rule_origin(ctx):
     f2 = ctx.program.func("autobahn.websocket.protocol._is_same_origin")
     ctx.analysed(f2)
     m = [c for c in calls_in(f2.node) if isinstance(c.func, ast.Attribute) and c.func.attr in ("match", "search", "fullmatch", "findall")]
-    ok = len(m) == 1 and m[0].func.attr in ("match", "fullmatch") and norm.text(m[0].args[0]) == "origin_header"
+    ok = len(m) == 1 and m[0].func.attr in ("match", "fullmatch") and len(m[0].args) == 1
     ctx.ob("origin compared with .match on the reconstituted scheme://host:port", ok, f"{[ast.unparse(c) for c in m]}", f2.loc())
-    tmpl = [s for s in walk_no_defs(f2.node) if isinstance(s, ast.Assign) and norm.text(s.targets[0]) == "template"]
-    ctx.ob("origin header reconstituted as scheme://host:port", len(tmpl) == 1 and isinstance(tmpl[0].value, ast.Constant) and tmpl[0].value.value == "{scheme}://{host}:{port}", "template changed", f2.loc())
-    fmt = [c for c in calls_in(f2.node) if norm.text(c.func) == "template.format"]
-    okf = len(fmt) == 1 and {k.arg: norm.text(k.value) for k in fmt[0].keywords} == {"scheme": "origin_scheme", "host": "origin_host", "port": "origin_port"}
-    ctx.ob("template filled from the origin triple in order", okf, "format arguments changed", f2.loc())
-    up = [s for s in walk_no_defs(f2.node) if isinstance(s, ast.Assign) and isinstance(s.targets[0], ast.Tuple)]
-    ctx.ob("origin triple unpacked as (scheme, host, port)", len(up) == 1 and norm.text(up[0].targets[0]) == "(origin_scheme, origin_host, origin_port)" and norm.text(up[0].value) == "websocket_origin", "unpack changed", f2.loc())
+    # the string handed to the pattern, as a term over the origin triple (f-string / format / concatenation are the same term)
+    from ..core.terms import TermEval, show, subterms
+    te = TermEval(ctx.program, f2, inline=lambda c, f: None).run()
+    matched = None
+    for o in te.outcomes:
+        for cnd, pl in list(o.conds) + [(o.term, True)]:
+            for x in subterms(cnd):
+                if x[0] == "m" and x[2] in ("match", "fullmatch") and len(x[3]) == 1:
+                    matched = x[3][0]
+    for cnds, t, st in te.effects:
+        for x in subterms(t):
+            if x[0] == "m" and x[2] in ("match", "fullmatch") and len(x[3]) == 1:
+                matched = x[3][0]
+    W = ("p", f2.params()[0])
+
+    def part(i):
+        return ("fmt", ("idx", W, ("c", i)), "")
+    want = ("cat", part(0), ("c", "://"), part(1), ("c", ":"), part(2))
+    ctx.ob("origin header reconstituted as scheme://host:port from the origin triple, in that order", matched == want,
+           f"matched string is {show(matched) if matched else None}", f2.loc())
     # _url_to_origin returns 'null' or a 3-tuple
     f3 = ctx.program.func("autobahn.websocket.protocol._url_to_origin")
     ctx.analysed(f3)
